@@ -145,8 +145,6 @@ class C10(E1Check):
         pb = wb.stored()
         if ob[:2] != T.outcome[:2] or pb != T.post:
             out.append(viol("handle-equals-db-form", sig + "|differs-from-db-form", observed=(T.outcome, T.post), expected=(ob, pb), detail=f"twin={twin(op)!r}"))
-        elif wb.db.index.valid != T.post_valid:
-            out.append(viol("handle-equals-db-form", sig + "|index-validity-differs", observed=T.post_valid, expected=wb.db.index.valid))
         wb.close()
         if not out and T.post_valid:
             out += [dict(v, kind="transition") for v in observers.index_equiv("C10", T.world.db, T.post, self.ivocab, counters, tag=f"|after-h.{op[0]}")]
